@@ -176,4 +176,53 @@ def nameCommaParts (s : Str) : List Str := if s = [] then [] else nameCommaParts
 def groupsClosed (s : Str) : Bool :=
   s.foldl (fun d c => if c = '{' then d + 1 else if c = '}' then d - 1 else d) 0 = 0
 
+/-! ### the case rule as bibtex.web states it, without the scanner
+
+`tokenCase` above runs on the token list of the shared scanner (`scan`, the model of
+`scan_bibtex_string`): "brace level" and "special character" are that scanner's notions.  The rule of
+bibtex.web (§§ 397–401 `von_token_found`) is restated here as ONE pass over the characters with a
+brace counter and nothing else: at brace level 0 a letter decides; a `{` at level 0 that is
+immediately followed by a backslash starts a special character, which decides (`specialCase` of its
+text up to the matching `}`); any other group is skipped, whatever it contains.
+`Props/C04.lean` (`C04_case_bibtex_partial`, `C04_case_bibtex_neg`) says where `tokenCase` agrees. -/
+
+/-- the text of a special character: everything up to the brace that closes it (`k` = braces open,
+the one that started it included); an unclosed one extends to the end -/
+def specialBody : Nat → Str → Str
+  | _, [] => []
+  | k, c :: r =>
+    if c = '{' then c :: specialBody (k + 1) r
+    else if c = '}' then (if k ≤ 1 then [] else c :: specialBody (k - 1) r)
+    else c :: specialBody k r
+
+/-- `d` = brace level -/
+def caseBibtex : Nat → Str → TokCase
+  | _, [] => .caseless
+  | d, c :: r =>
+    if c = '{' then
+      if d = 0 ∧ r.head? = some '\\' then specialCase (specialBody 1 r)
+      else caseBibtex (d + 1) r
+    else if c = '}' then caseBibtex (d - 1) r
+    else if d = 0 ∧ isAlphaN c then charCase c
+    else caseBibtex d r
+
+/-- the case of a token, scanner-free: a cased first character decides (as in `tokenCase`); else
+the first brace-level-0 letter or special character -/
+def tokenCaseBibtex (tok : Str) : TokCase :=
+  match tok.head?.map charCase with
+  | some .upper => .upper
+  | some .lower => .lower
+  | _ => caseBibtex 0 tok
+
+/-- no backslash stands at brace level 1 inside an ORDINARY group (one that does not start with a
+backslash) before the case of the token is decided.  pybtex's scanner hands such a backslash out as a
+level-1 token starting with a backslash, which `is_von_name` takes for a special character. -/
+def plainGroups : Nat → Str → Bool
+  | _, [] => true
+  | d, c :: r =>
+    if c = '{' then (if d = 0 ∧ r.head? = some '\\' then true else plainGroups (d + 1) r)
+    else if c = '}' then plainGroups (d - 1) r
+    else if d = 0 ∧ isAlphaN c then true
+    else !(d = 1 ∧ c = '\\') && plainGroups d r
+
 end Pybtex.Spec
